@@ -45,6 +45,10 @@ var replies = [][]string{
 	{"d=1; Secure; HttpOnly"},
 	{"e=1", "f=2; Path=/p/x"},
 	{"a=gone; Expires=Thu, 01 Jan 1970 00:00:00 GMT"},
+	// lines net/http's cookie parser rejects (browsers accept some of them): still the backend's, never the client's
+	{"prefs[theme]=dark; Path=/"},
+	{"=novalue", "bad name=1"},
+	{"g=1", "h[1]=2"},
 }
 
 var alphabet []op
@@ -63,6 +67,10 @@ func buildAlphabet(thin bool) {
 							continue
 						}
 						if thin && ei == 2 && ri != 1 && ri != 0 {
+							continue
+						}
+						// the unparsable lines: first host, root path, no client cookies (thorough: everywhere)
+						if thin && ri >= 9 && (hi == 1 || p != "/" || ei != 0) {
 							continue
 						}
 						alphabet = append(alphabet, op{c, h, p, e, r})
@@ -219,6 +227,11 @@ func eval(tier string, idx int) vx.Exec {
 		if len(resp.Header["Set-Cookie"]) > 1 {
 			x.Violations = append(x.Violations, fmt.Sprintf("LEAK: %d Set-Cookie fields reached the client at %s", len(resp.Header["Set-Cookie"]), where))
 		}
+		for _, line := range resp.Header["Set-Cookie"] {
+			if !strings.HasPrefix(line, cookieName+"=") {
+				x.Violations = append(x.Violations, fmt.Sprintf("LEAK: Set-Cookie line %q reached the client at %s", line, where))
+			}
+		}
 		sid := cs.cookie
 		if cs.cookie == "" {
 			if sessionSet == nil {
@@ -274,7 +287,7 @@ func main() {
 				buildLongRuns()
 			}
 		},
-		Rule:     fmt.Sprintf("cases = all sequences of depth 3 over %d operations (quick: thinned alphabet of 180, thorough: full product of 324) (client x host x path x client cookies x backend Set-Cookie reply) + 3 long runs; non-trivial = some cookie reached the backend during the history", len(alphabet)),
+		Rule:     fmt.Sprintf("cases = all sequences of depth 3 over %d operations (quick: thinned alphabet, thorough: full product) (client x host x path x client cookies x backend Set-Cookie reply) + 3 long runs; non-trivial = some cookie reached the backend during the history", len(alphabet)),
 		Total:    total,
 		Eval:     eval,
 		Describe: func(tier string, i int) string { return fmt.Sprintf("history %v", seqOf(tier, i)) },
